@@ -88,6 +88,17 @@ static Verdict check_c13(const GCase& c, Stats& st)
                   if (!verify(log, &ctx, true, true, false, "const& (ctx, buffer, stream)", what)) return fail(what, "const& through context_parse(ctx, buffer, stream)");
                   (void)r; }
             }
+            // (e) a small trivially copyable context (two ints) by non-const and by const reference, (f) a raw pointer as the context object
+            { tpl::PodCtx pc; tpl::CallLog log; tpl::g_log = &log; auto r = p.context_parse(pc, opts, buf, ns); tpl::g_log = nullptr;
+              if (!verify(log, &pc, false, true, true, "small trivially copyable struct&", what)) return fail(what, "small trivially copyable struct&");
+              if (size_t(pc.count) != exp_ctx.size() || (!exp_ctx.empty() && pc.last != exp_ctx.back())) return fail("mutations made through the non-const context are not what the caller sees afterwards", "small trivially copyable struct&");
+              if (r.has_value() != has_plain || (has_plain && r.value().get_value().h != v_plain)) return fail("parse and context_parse disagree", "small trivially copyable struct&"); }
+            { const tpl::PodCtx pc{}; tpl::CallLog log; tpl::g_log = &log; auto r = p.context_parse(pc, opts, buf, ns); tpl::g_log = nullptr; (void)r;
+              if (!verify(log, &pc, true, true, false, "const small trivially copyable struct&", what)) return fail(what, "const small trivially copyable struct&"); }
+            { tpl::Ctx target; tpl::Ctx* ptr = &target; tpl::CallLog log; tpl::g_log = &log; auto r = p.context_parse(ptr, opts, buf, ns); tpl::g_log = nullptr;
+              if (!verify(log, &ptr, false, true, true, "raw pointer (lvalue)", what)) return fail(what, "raw pointer (lvalue)");
+              if (target.seen != exp_ctx || ptr != &target) return fail("mutations made through the context are not what the caller sees afterwards", "raw pointer (lvalue)");
+              if (r.has_value() != has_plain || (has_plain && r.value().get_value().h != v_plain)) return fail("parse and context_parse disagree", "raw pointer (lvalue)"); }
             // (b) const lvalue
             { const tpl::Ctx ctx; tpl::CallLog log; tpl::g_log = &log; auto r = p.context_parse(ctx, opts, buf, ns); tpl::g_log = nullptr;
               if (!verify(log, &ctx, true, true, false, "const&", what)) return fail(what, "const&");
@@ -107,7 +118,7 @@ static Verdict check_c13(const GCase& c, Stats& st)
 #endif
         }
         catch (const std::exception& ex) { tpl::g_log = nullptr; vj::Value d = vj::Value::object(); d.set("exception", ex.what()); return fail("parse threw", "?", d); }
-        st.sub_evaluations += st.counting ? 5 : 0;
+        st.sub_evaluations += st.counting ? 8 : 0;
         if (exp_ctx.size() >= 3) ++interesting;
     }
     if (interesting && st.counting && st.nontriv(eng::hcomb(g.hash(), c.inputs.size())))
